@@ -21,7 +21,7 @@ GAMMA_PAIRS_FULL = [(a, b) for a in H.G_FULL for b in H.G_FULL]
 
 
 def modules():
-    return [H.mod(RM), H.mod(UM)]
+    return [H.mod(RM), H.mod(UM), H.mod('exactpack.solvers.riemann.ep_riemann')]
 
 
 def shim_extra(cut=True):
@@ -39,34 +39,36 @@ def domain(V, extra=True):
     return d
 
 
-def run_driver(mk, gl, gr, state=None, xd0=None, t=None, prefix=''):
-    """Run the real constructor and driver().  Symbolic mode: driver is cut at the first
-    linspace (grid construction) and its locals are harvested; concrete mode: the full driver
-    runs and the same quantities are read from the attributes it stores."""
+EP = 'exactpack.solvers.riemann.ep_riemann'
+KEYS = ('px', 'ux', 'rx1', 'rx2', 'ex1', 'ex2', 'ax1', 'ax2', 'al', 'ar', 'el', 'er')
+
+
+def run_driver(mk, gl, gr, state=None, xd0=None, t=None, prefix='', xuser=None):
+    """Run the PUBLIC solver class IGEOS_Solver: its _run builds a RiemannIGEOS and calls driver().
+    Symbolic mode: driver is cut at the first linspace (grid construction) and its locals are harvested;
+    concrete mode: the full solver runs and the same locals are captured when driver() returns."""
     m = H.mod(RM)
+    ep = H.mod(EP)
     st = state or {k: mk(prefix + k) for k in STATE}
     xd0 = mk(prefix + 'xd0') if xd0 is None else xd0
     t = mk(prefix + 't') if t is None else t
     kw = dict(st)
-    kw.update(gl=K(mk, gl), gr=K(mk, gr), xd0=xd0, t=t, xmin=xd0 - 1, xmax=xd0 + 1, num_x_pts=2)
-    sol = m.RiemannIGEOS(**kw)
+    kw.update(gl=K(mk, gl), gr=K(mk, gr), xd0=xd0, xmin=xd0 - 1, xmax=xd0 + 1, num_x_pts=2)
+    sol = ep.IGEOS_Solver(**kw)
+    xs = H.arr([xd0 if xuser is None else xuser])
     if Mode.symbolic(mk):
         try:
-            sol.driver()
+            sol._run(xs, t)
             raise RuntimeError('driver was not cut')
         except stubs.Cut as c:
             L = c.locals
-        out = {k: L[k] for k in ('px', 'ux', 'rx1', 'rx2', 'ex1', 'ex2', 'ax1', 'ax2', 'al', 'ar', 'el', 'er')}
-        out['Vregs'] = list(L['Vregs'])
-        out['Xregs'] = list(L['Xregs'])
-        out['pattern'] = PATTERNS[L['soln_type']]
     else:
-        sol.driver()
-        out = {k: getattr(sol, k) for k in ('px', 'ux', 'rx1', 'rx2', 'ex1', 'ex2', 'ax1', 'ax2', 'al', 'ar', 'el', 'er')}
-        out['Vregs'] = [float(v) for v in sol.Vregs]
-        out['Xregs'] = [float(v) for v in sol.Xregs]
-        out['pattern'] = PATTERNS[sol.soln_type]
-    out['inst'] = sol
+        _, L = H.capture_locals(m.RiemannIGEOS.driver, lambda: sol(xs, t))
+    out = {k: L[k] for k in KEYS}
+    out['Vregs'] = list(L['Vregs'])
+    out['Xregs'] = list(L['Xregs'])
+    out['pattern'] = PATTERNS[L['soln_type']]
+    out['inst'] = L['self']
     out.update({k: st[k] for k in STATE})
     out.update(gl=K(mk, gl), gr=K(mk, gr), xd0=xd0, t=t)
     return out
